@@ -1,5 +1,5 @@
-import CardVerif.Spec.Strength
-import CardVerif.Model.Omaha
+import CardModel.Spec.Strength
+import CardModel.Model.Omaha
 import CardVerif.Props.C05
 import Mathlib.Data.List.Sublists
 import Mathlib.Data.List.Nodup
